@@ -15,21 +15,26 @@ package staking
 //@   modifies nothing
 
 //@ func Application.transferImpl
-//@   props C05 C08
+//@   props C05 C08 C10
+//@   safety panic
 //@   requires ctx != nil && state != nil && params != nil && xfer != nil && quantity.Val(&xfer.Amount) >= 0
+//@   requires !api.IsCheck(ctx) && !api.IsSim(ctx) && xfer.To != staking.BurnAddress
+//@   note C10: the two "BUG:" panics are unreachable: every caller under contract establishes delivery mode and a non-burn destination
 //@   ensures err == nil ==> conserved() && stakingState.SharesConsistentWithOld()
 //@   ensures err != nil && !unavail(err) ==> noWrites()
 
 //@ func Application.burnImpl
-//@   props C05 C08
+//@   props C05 C08 C10
+//@   safety panic
 //@   requires ctx != nil && state != nil && params != nil && amount != nil && quantity.Val(amount) >= 0
+//@   requires !api.IsCheck(ctx) && !api.IsSim(ctx)
 //@   requires stakingState.GSupply >= stakingState.Ledger() && stakingState.GCommon >= 0 && stakingState.GGovDep >= 0 && stakingState.GLastFees >= 0
 //@   ensures err == nil ==> stakingState.Ledger() == old(stakingState.Ledger()) - old(quantity.Val(amount)) && stakingState.GSupply == old(stakingState.GSupply) - old(quantity.Val(amount))
 //@   ensures err == nil ==> stakingState.SharesConsistentWithOld()
 //@   ensures err != nil && !unavail(err) ==> noWrites()
 
 //@ func Application.transfer
-//@   props C05 C08
+//@   props C05 C08 C10
 //@   requires ctx != nil && state != nil && xfer != nil && quantity.Val(&xfer.Amount) >= 0
 //@   requires stakingState.GSupply >= stakingState.Ledger() && stakingState.GCommon >= 0 && stakingState.GGovDep >= 0 && stakingState.GLastFees >= 0
 //@   ensures err == nil ==> stakingState.GSupply - stakingState.Ledger() == old(stakingState.GSupply - stakingState.Ledger()) && stakingState.GSupply <= old(stakingState.GSupply)
@@ -37,7 +42,7 @@ package staking
 //@   ensures err != nil && !unavail(err) ==> noWrites()
 
 //@ func Application.burn
-//@   props C05 C08
+//@   props C05 C08 C10
 //@   requires ctx != nil && state != nil && burn != nil && quantity.Val(&burn.Amount) >= 0
 //@   requires stakingState.GSupply >= stakingState.Ledger() && stakingState.GCommon >= 0 && stakingState.GGovDep >= 0 && stakingState.GLastFees >= 0
 //@   ensures err == nil ==> stakingState.GSupply - stakingState.Ledger() == old(stakingState.GSupply - stakingState.Ledger()) && stakingState.GSupply <= old(stakingState.GSupply)
@@ -72,9 +77,13 @@ package staking
 // ---- fee disbursement (BeginBlock: disburseFeesVQ, EndBlock: disburseFeesP) ----
 
 //@ func Application.disburseFeesVQ
-//@   props C05
+//@   props C05 C10
+//@   safety nil bounds div panic assert-type
 //@   requires app != nil && ctx != nil && stakeState != nil
 //@   requires stakingState.GCommon >= 0 && stakingState.GLastFees >= 0
+//@   requires numEligibleValidators >= 1 || stakingState.GLastFees == 0
+//@   precall quantity\.Quantity\)\.Quo$ :: quantity.Val(argAs[*quantity.Quantity](0)) > 0
+//@   note C10: every division of the disbursement has a positive divisor (Quo fails, and BeginBlock with it, on a zero divisor); with at least one validator in the previous commit (true from the second block on; at the initial height the persisted fees are zero because genesis moves them to the common pool) the disbursement cannot fail except for an unavailable state; every quantity operation on the way is shown not to fail for any fee amount, any vote pattern and any fee-split weights (zero weights included)
 //@   ensures err == nil ==> stakingState.GAcctSum + stakingState.GCommon == old(stakingState.GAcctSum + stakingState.GCommon) + old(stakingState.GLastFees)
 //@   ensures stakingState.GLastFees == old(stakingState.GLastFees) && stakingState.GSupply == old(stakingState.GSupply) && stakingState.GGovDep == old(stakingState.GGovDep)
 //@   ensures err == nil ==> stakingState.SharesConsistentWithOld()
@@ -84,7 +93,11 @@ package staking
 //@   note the persisted fees of the previous block are paid out in full: whatever is not paid to voters / next proposer is swept into the common pool; the stored LastBlockFees record itself is overwritten by disburseFeesP at the end of the same block
 
 //@ func Application.disburseFeesP
-//@   props C05
+//@   props C05 C10
+//@   safety nil bounds div panic assert-type
+//@   requires ufb("feeSplitNotAllZero", stakeState)
+//@   precall quantity\.Quantity\)\.Quo$ :: quantity.Val(argAs[*quantity.Quantity](0)) > 0
+//@   note C10: the divisor is the sum of the three fee split weights, which ConsensusParameters.SanityCheck keeps positive (precondition feeSplitNotAllZero, tied to the accessor contract)
 //@   requires app != nil && ctx != nil && stakeState != nil && totalFees != nil && quantity.Val(totalFees) >= 0
 //@   requires stakingState.GCommon >= 0
 //@   ensures err == nil ==> stakingState.GAcctSum + stakingState.GCommon + stakingState.GLastFees == old(stakingState.GAcctSum + stakingState.GCommon) + old(quantity.Val(totalFees))
